@@ -302,7 +302,11 @@ func runCase(c Case) (res simResult) {
 					return
 				}
 			}
-			_, err := p.Insert(sp.ID, sp.URL, sp.Hops)
+			text := sp.URL
+			if sp.Raw != "" {
+				text = sp.Raw
+			}
+			_, err := p.Insert(sp.ID, text, sp.Hops)
 			insMu <- struct{}{}
 			if err != nil {
 				insertErrs[sp.ID] = err
@@ -571,6 +575,13 @@ func runCase(c Case) (res simResult) {
 			if !acceptableURL(u) || excluded(u, c.Settings) {
 				facet = "C05/pipeline"
 			}
+			for _, sp := range c.Seeds {
+				if sp.Raw != "" && strings.EqualFold(u, sp.Raw) {
+					// the seed was requested under the spelling it arrived in, not under its canonical URL: whatever was
+					// recorded as seen for it, or will be looked up, is recorded under another name
+					return fail("C08/pipeline", "seed %s arrived spelled %s; it was requested %d time(s) as %s instead of its canonical URL %s, the name the seen-store knows it by", sp.ID, sp.Raw, n, u, sp.URL)
+				}
+			}
 			return fail(facet, "%s was requested %d time(s) although no seed's tree (within redirect, depth, scope and seen rules) contains it", u, n)
 		}
 	}
@@ -783,6 +794,22 @@ func genCase(t *rapid.T) (Case, map[string]bool) {
 		c.Seeds = append(c.Seeds, sp)
 		for k := range f {
 			feats[k] = true
+		}
+	}
+	// the same seed once more, later in the job (a second input list, an outlink coming back): with seencheck it is
+	// skipped. Seeds also arrive in spellings other than the canonical one.
+	if c.Sequential && c.Settings.Seencheck && rapid.IntRange(0, 2).Draw(t, "again") == 0 {
+		d := c.Seeds[rapid.IntRange(0, len(c.Seeds)-1).Draw(t, "againwhich")]
+		d.ID = fmt.Sprintf("seed-%d", len(c.Seeds)+1)
+		c.Seeds = append(c.Seeds, d)
+		feats["seed-again"] = true
+	}
+	for i := range c.Seeds {
+		if rapid.IntRange(0, 3).Draw(t, fmt.Sprintf("spelling%d", i)) == 0 && acceptableURL(c.Seeds[i].URL) {
+			if r := Spelled(c.Seeds[i].URL); r != "" {
+				c.Seeds[i].Raw = r
+				feats["seed-spelled-differently"] = true
+			}
 		}
 	}
 	// control events
